@@ -424,6 +424,11 @@ class GreedySelector(SelectorMixin, MetaEstimatorMixin, BaseEstimator):
     def _get_best_new_selection(self, scorer, X, y):
         scores = scorer(X, y)
 
+        if getattr(self, "n_selected_", 0) > 0:
+            # items that were already selected must never be selected again
+            scores = np.array(scores, dtype=float)
+            scores[self.selected_idx_[: self.n_selected_]] = -np.inf
+
         max_score_idx = np.argmax(scores)
         if self.score_threshold is not None:
             if self.first_score_ is None:
